@@ -64,6 +64,7 @@ REGIONS = {
     'renege_dyn': dict(renege=1.0, dyn=1.0, multiclass=True),     # reneging x class change while waiting (C17)
     'ps': dict(ps=1.0, noblock=True),
     'deadlock': dict(block=1.0, deadlock=True),
+    'slotted_pre': dict(slotted=1.0, noblock=True, slotpre=True),
     'renege_jockey': dict(renege=1.0, routers=1.0, jockey=True, block=0.6),
     'preempt_deep': dict(prio=1.0, preempt=1.0, noblock=True, deep=True),
     'jsq_preempt': dict(routers=1.0, jsq=True, prio=1.0, preempt=1.0, noblock=True, multiclass=True),
@@ -97,6 +98,9 @@ def gen(region, seed, size='quick'):
             if a is not None and sum(a) == 0:
                 a[0] = 2        # no Zeno stream
     cfg['svc'] = [[_vals(rng, zero=zero) for _ in range(n)] for _ in range(k)]
+    if f.get('slotpre'):
+        cfg['svc'] = [[_vals(rng, 1, 4, grid=[8, 12, 16, 24, 32]) for _ in range(n)] for _ in range(k)]
+        cfg['arr'] = [[_vals(rng, 1, 4, grid=[1, 2, 3, 4]) for _ in range(n)] for _ in range(k)]
     if f.get('deep'):
         cfg['svc'] = [[_vals(rng, 1, 4, grid=[6, 8, 12, 16, 20]) for _ in range(n)] for _ in range(k)]
         cfg['arr'] = [[_vals(rng, 1, 4, grid=[3, 4, 6, 8, 12]) for _ in range(n)] for _ in range(k)]
@@ -109,8 +113,16 @@ def gen(region, seed, size='quick'):
             m = rng.randint(1, 3)
             slots = sorted(rng.sample([2, 4, 6, 8, 12, 16, 20, 24], m))
             capd = rng.random() < 0.5
-            servers.append({'kind': 'slotted', 'slots': slots, 'sizes': [rng.choice([1, 2, 3]) for _ in range(m)],
-                            'cap': capd, 'pre': (rng.choice([False, 'resume', 'restart', 'resample']) if capd else False),
+            sizes = [rng.choice([1, 2, 3]) for _ in range(m)]
+            pre_ = (rng.choice([False, 'resume', 'restart', 'resample']) if capd else False)
+            if f.get('slotpre'):
+                capd = True
+                pre_ = rng.choice(['resume', 'restart', 'resample'])
+                m = 3
+                slots = sorted(rng.sample([2, 4, 6, 8, 12, 16], m))
+                sizes = rng.choice([[3, 2, 1], [3, 1, 2], [2, 1, 3], [3, 2, 1], [2, 2, 1]])
+            servers.append({'kind': 'slotted', 'slots': slots, 'sizes': sizes,
+                            'cap': capd, 'pre': pre_,
                             'offset': rng.choice([0, 0, 2, 4])})
         elif P('sched') and (rng.random() < 0.7):
             m = rng.randint(1, 4)
